@@ -5,18 +5,23 @@
   helper lemmas: MvProps/C09Lemmas.lean.
 
   The property as worded ("k ≤ top_k matching frames are all hit, with the default options and with
-  the pre-filter disabled") is FALSE for the code as it is, for two independent reasons:
+  the pre-filter disabled") is FALSE for the code as it is, for three independent reasons, each
+  reproduced on the real code on every run and recorded in /verif/known_findings.jsonl:
     1. the sketch pre-filter rejects an entry whose SimHash is more than 32 bits from the query's,
        also when the entry's term filter says the query word may be there (`C09_counterexample`,
        `C09_witness_real`): design-level finding `sketch-hamming-cut-drops-matching-frames`;
     2. `top_k` counts snippets, not frames (`C09_snippet_budget_counterexample`): finding
-       `top-k-counts-snippets-not-frames` (same root as C16's finding).
-  What is TRUE and proved: recall with the pre-filter off (`C09_recall_nosketch`), recall of every
-  frame whose sketch entry passes the two tests (`C09_recall_sketch_partial`: the pre-filter decision
-  is the only thing that can lose a frame), exactly which frames the pre-filter hides
+       `top-k-counts-snippets-not-frames` (same root as C16's finding);
+    3. a frame the post-filter culls is never returned (`C09_culled_never_found`); the case met in
+       practice is a chunked parent document one of whose chunk frames was deleted: finding
+       `chunked-document-with-deleted-chunk-is-culled`.
+  What is TRUE and proved: recall with the pre-filter off (`C09_recall_nosketch`, `_k`, `_no_track`,
+  under the engine assumptions E1–E3), recall of every frame whose sketch entry passes the two tests
+  (`C09_recall_sketch_partial`: the pre-filter decision is the only thing in the default path that can
+  lose a frame the `no_sketch` path finds), which frames the pre-filter hides
   (`C09_dropped_never_found`), recall for every threshold that makes the Hamming cut void
-  (`C09_nocut`, the evaluated repair), and that a write+read of the sketch track does not change the
-  decision (`C09_reopen_same_verdict`).
+  (`C09_nocut`: the evaluated, not proposed, repair `hamming_threshold: 64`), and that a write+read of
+  the sketch track does not change the decision (`C09_reopen_same_verdict`).
 -/
 import MvProps.C09Lemmas
 import MvModel.Query
@@ -236,6 +241,59 @@ theorem C09_dropped_never_found (thr : Nat) (W : World) (order : List Entry → 
   · exact hne h
   · exact hnot h
 
+/-- **C09_culled_never_found** — why `PostOK.keep` is needed: a frame the post-filter culls (`docs f = none`:
+    stale id, `evaluate` false, no snippet, or — the recorded finding — a chunked parent document whose
+    chunk context cannot be resolved after one of its chunk frames was deleted) is in no hit, whatever
+    the engine returns, unless the legacy fall-back index lists it. -/
+theorem C09_culled_never_found (thr : Nat) (W : World) (order : List Entry → List Entry) (q : QSketch) (t : Track)
+    (topK : Nat) (noSketch : Bool) (hd : ∀ f d, W.docs f = some d → d.frame = f)
+    (hperm : ∀ l, (W.reorder l).Perm l) (hlex : W.engine.lexMatches = [])
+    (f : Nat) (hf : W.docs f = none) :
+    f ∉ hitFramesAt thr W order q t { topK := topK, noSketch := noSketch } := by
+  intro hin
+  have hsel := post_selects W topK hd hperm
+  have hkeep : ∀ (flt : Option (List Nat)), f ∈ searchWith W topK flt → (post W topK).keep f = true := by
+    intro flt h
+    unfold searchWith at h
+    have hfb : ∀ x, x ∈ Filter.lexFallback W.engine (post W topK) flt → False := by
+      intro x hx
+      have := (Filter.mem_lexFallback hsel hx).1
+      rw [hlex] at this
+      cases this
+    cases ht : Filter.tryTantivy W.engine (post W topK) flt topK 0 with
+    | none => rw [ht] at h; exact (hfb f h).elim
+    | some hits =>
+      rw [ht] at h
+      simp only at h
+      unfold Filter.tryTantivy at ht
+      cases he : W.engine.tantivy flt (Filter.docLimit topK 0 flt) with
+      | none => rw [he] at ht; cases ht
+      | some eh =>
+        rw [he] at ht
+        simp only at ht
+        by_cases h0 : eh.isEmpty = true
+        · simp only [h0, if_true] at ht
+          by_cases hl : W.engine.hasLex = true
+          · simp only [hl, if_true, Option.some.injEq] at ht
+            subst ht; exact (hfb f h).elim
+          · simp only [hl, Bool.false_eq_true, ↓reduceIte, Option.some.injEq] at ht
+            subst ht; cases h
+        · simp only [h0, Bool.false_eq_true, ↓reduceIte] at ht
+          by_cases h1 : ((post W topK).order (eh.filter (post W topK).keep)).isEmpty = true
+          · simp only [h1, if_true, Option.some.injEq] at ht
+            subst ht; exact (hfb f h).elim
+          · simp only [h1, Bool.false_eq_true, ↓reduceIte, Option.some.injEq] at ht
+            subst ht
+            have h2 := hsel.2 _ _ (hsel.1 _ _ h)
+            exact (List.mem_filter.1 h2).2
+  rw [hitFramesAt_eq] at hin
+  cases hs : Filter.sketchStage .repaired none (sketchIn order q t true noSketch thr topK) with
+  | none => rw [hs] at hin; cases hin
+  | some flt =>
+    rw [hs] at hin
+    have := hkeep flt hin
+    simp [post, hf] at this
+
 /-! ## 3. the evaluated repair: a threshold that makes the Hamming cut void -/
 
 theorem popcount_le (n : Nat) : popcount n ≤ SIMHASH_BITS := by
@@ -348,6 +406,19 @@ theorem witnessInst_valid : witnessInst.Valid where
 
 example : witnessInst.t.entries.map (verdict witnessInst.q SKETCH_HAMMING) = [.tooFar, .pass] := by decide
 
+/-- non-vacuity of the hypotheses of `C09_recall_nosketch`, `C09_recall_sketch_partial` (at threshold 64 the
+    entry of frame 0 passes), `C09_dropped_never_found` (at threshold 32 the candidate list is `[1]`, frame 0
+    is outside) and `C09_nocut`: the witness world satisfies all of them -/
+example : EngineOK witnessInst.W.engine [0] [0] ∧ PostOK witnessInst.W [0] ∧ Budget witnessInst.W [0] 10 :=
+  ⟨witnessInst_valid.engine, witnessInst_valid.post, by unfold Budget; decide⟩
+example : ∃ e ∈ witnessInst.t.entries, e.frameId = 0 ∧ passes witnessInst.q 64 e = true := by decide
+example : findCandidates id witnessInst.q witnessInst.t SKETCH_HAMMING (maxCandidates 10) = [1] := by decide
+
+/-- the constants the statements above were read against (the finding describes THIS tree: a changed
+    threshold or candidate bound stops the build and the finding has to be re-examined) -/
+theorem C09_constants : SKETCH_HAMMING = 32 ∧ SKETCH_CAND_MULT = 10 ∧ SKETCH_CAND_FLOOR = 500 ∧
+    HAMMING_CUT_STRICT = true ∧ SIMHASH_BITS = 64 := by decide
+
 /-- **C09_counterexample** — with the default options the frame that holds the word is not returned. -/
 theorem C09_counterexample : ¬ C09_full := by
   intro h
@@ -412,6 +483,8 @@ theorem C09_snippet_budget_counterexample : ¬ C09_full_nosketch_multi := by
   decide
 
 /-! ## 6. reopen does not change the decision -/
+
+example : witnessInst.t.entries.map (·.termFilter.length) = [Variant.small.filterSize, Variant.small.filterSize] := by decide
 
 /-- **C09_reopen_same_verdict** — the Small and Medium on-disk entries keep the SimHash and (for a filter of
     the variant's size, which every generated sketch has) the whole term filter: the entry read back after
